@@ -68,6 +68,7 @@ type KDC struct {
 	UDPTooBig         bool            // every UDP request is answered KRB_ERR_RESPONSE_TOO_BIG: the client must come back over TCP
 	asScript          func(n int) int // see SetASScript
 	asSeen, referred  int
+	ClockAhead        time.Duration                            // the KDC's clock runs this far ahead of the host's (keep it inside the permitted skew)
 	HintOrder         int                                      // with ExtraHints: 0 = INFO2, INFO, PW-SALT; 1 = INFO, INFO2, PW-SALT; 2 = PW-SALT, INFO, INFO2 (the order is not significant)
 	ExtraHints        bool                                     // PREAUTH_REQUIRED / FAILED e-data also carries ETYPE-INFO (another etype first) and PW-SALT after ETYPE-INFO2
 	Backdate          time.Duration                            // initial tickets carry an authtime/starttime this far in the past
@@ -123,6 +124,8 @@ func (k *KDC) SetASScript(f func(n int) int) {
 	k.asScript, k.asSeen, k.referred = f, 0, 0
 	k.mu.Unlock()
 }
+
+func (k *KDC) now() time.Time { return time.Now().UTC().Add(k.ClockAhead) }
 
 func (k *KDC) SetErrorCode(code int32) {
 	k.mu.Lock()
@@ -282,7 +285,7 @@ func (k *KDC) handleAS(raw []byte) []byte {
 		return krbErr(k.Realm, sname, 14, nil)
 	}
 	ckey := cl.Keys[et]
-	now := time.Now().UTC()
+	now := k.now()
 	// pre-authentication
 	var ts *types.PAData
 	for i, pa := range req.PAData {
@@ -459,7 +462,7 @@ func (k *KDC) handleTGS(raw []byte) []byte {
 		return krbErr(k.Realm, sname, 31, nil)
 	}
 	tgt := ap.Ticket.DecryptedEncPart
-	now := time.Now().UTC()
+	now := k.now()
 	if now.After(tgt.EndTime.Add(time.Second)) {
 		return krbErr(k.Realm, sname, 32, nil)
 	}
